@@ -64,6 +64,12 @@ def gen(rng):
             steps.append(['d', base + '/empty', 0o700])
         else:
             G.add_trashed(steps, tdir, nm, pv, date, kind, tag=str(i))
+    if cmd in ('trash-empty', 'trash-rm') and rng.random() < 0.02:
+        # an entry nested deeper than the interpreter's recursion limit: shutil.rmtree gives up on it with RecursionError;
+        # whatever the command does then, the payload that is still there keeps its .trashinfo
+        tdir = locs[0][0]
+        G.add_trashed(steps, tdir, 'entabyss', TG.pct(home + '/w/entabyss'), '2011-01-01T00:00:00', 'dir', tag='abyss')
+        steps.append(['d', tdir + '/files/entabyss' + '/d' * 1100, 0o755])
     if cmd == 'trash-empty' and rng.random() < 0.5:
         steps.append(['f', locs[0][0] + '/files/orphan1', 'o', 0o644])
     if cmd == 'trash-restore':
@@ -111,6 +117,7 @@ def check(sim, case, st):
     res = []
     bag0 = None
     final = None
+    full_exc = None
     final_bag_keys = None
     PINS.clear()
     for k, n, before, r, snap in EC.sweep(sim, case, st):
@@ -119,6 +126,7 @@ def check(sim, case, st):
             sim.setup(case)
             bag0 = OR.scan(sim, before, env, uid, mounts)
             final = snap
+            full_exc = (r.exc_frame, (r.exc or '').split(':')[0]) if r.exc is not None else None
             final_bag_keys = OR.bag_keys(OR.scan(sim, final, env, uid, mounts)) if False else None
             st.probes[cmd.split('-')[1] + '-scenarios'] += 1
             if note.get('cross'):
@@ -173,12 +181,20 @@ def check(sim, case, st):
             rr = sim.run(spec)
             st.sims += 1
             after = sim.snap()
-            if rr.exc is not None:
+            if rr.exc is not None and (rr.exc_frame, rr.exc.split(':')[0]) == full_exc:
+                # the UNDISTURBED command dies the same way on this content (an entry nested deeper than the recursion limit):
+                # not a matter of recovery after a kill; what counts below is that the re-run gets as far as the undisturbed run
+                st.probes['undisturbed-run-dies-the-same-way'] += 1
+            elif rr.exc is not None:
                 bad('rerun-traceback:%s' % rr.exc_frame, 're-running the killed command raised %s' % rr.exc)
             # the purge is complete: same trash content as the uninterrupted run
             ta = dict((p, v) for p, v in after.items() if '/files/' in p or '/info/' in p)
             tf = dict((p, v) for p, v in final.items() if '/files/' in p or '/info/' in p)
-            if set(ta) != set(tf):
+            if full_exc is not None:
+                # the undisturbed run died on the way (how far it got depends on the order in which directories are listed):
+                # there is no 'complete purge' to compare the re-run with; the payload/info invariant above still applies
+                st.probes['no-complete-purge-to-compare-with'] += 1
+            elif set(ta) != set(tf):
                 bad('rerun-did-not-complete', 're-running the killed command leaves %r, the uninterrupted run leaves %r'
                     % (sorted(set(ta) - set(tf))[:5], sorted(set(tf) - set(ta))[:5]))
             else:
